@@ -14,7 +14,7 @@ if [ -n "$vec" ]; then T="-tags $vec -modfile=/tmp/wtmods/vec.mod"; else T=""; f
 run() { unshare -rm sh -c "mount -t tmpfs tmpfs /tmp 2>/dev/null; mkdir -p /tmp/wtmods /tmp/faiss-stub; cd $wt && $*"; }
 # the vectors modfile and stub live under /tmp: copy them aside so the private /tmp can see them
 if [ -n "$vec" ]; then
-  mkdir -p /var/tmp/wtmods && cp /tmp/wtmods/vec.mod /tmp/wtmods/vec.sum /var/tmp/wtmods/ && sed -i 's#/tmp/faiss-stub#/verif/stubs/go-faiss#' /var/tmp/wtmods/vec.mod
+  mkdir -p /var/tmp/wtmods && cp /verif/tools/wtmods/vec.mod /verif/tools/wtmods/vec.sum /var/tmp/wtmods/ && sed -i 's#/tmp/faiss-stub#/verif/stubs/go-faiss#' /var/tmp/wtmods/vec.mod
   T="-tags $vec -modfile=/var/tmp/wtmods/vec.mod"
 fi
 clean_demo=$(run "go test $RACE -vet=off -count=1 $T -run TestSeeded . 2>&1" | tail -3)
